@@ -136,7 +136,7 @@ class NxModel:
             if not (data.k == "str" and z3.is_string_value(data.t) and data.t.as_string() == "label"):
                 raise Unsupported("edges(data=...) other than 'label'")
             return SV("gen", x=[Bag([e], cond, sv_tuple([SV("val", e_src(e)), SV("val", e_tgt(e)),
-                                                          SV("val", z3.Select(L, e))]))])
+                                                          SV("val", z3.Select(L, e), cls="EdgeLabel")]))])
         if name == "number_of_edges":
             st.facts.append(Card(E) >= 0)
             return sv_int(Card(E))
